@@ -105,11 +105,25 @@ Print Assumptions C19_battery_values.
    negative number of seconds: 3 Ah at -1 A -> -10800; the code as it is answers 10800 *)
 Theorem C19_battery_negative_power_refuted :
   exists b r r', kbat_ok b = true /\ tte_unused b = true /\
-    battery_of_at true (bat_files b) FAbsent FAbsent = Val (Some r) /\ bt_secsleft r = -10800 /\
-    spec_battery b Absent Absent = Some r' /\ bt_secsleft r' = 10800 /\ bt_percent r = bt_percent r' /\
+    battery_of_at true (bat_files b) FAbsent FAbsent = Val (Some r) /\ bt_secsleft r = RSecs (-10800) /\
+    spec_battery b Absent Absent = Some r' /\ bt_secsleft r' = RSecs 10800 /\ bt_percent r = bt_percent r' /\
     battery_of (bat_files b) FAbsent FAbsent = Val (Some r').
 Proof. exact battery_negative_power_refuted. Qed.
 Print Assumptions C19_battery_negative_power_refuted.
+
+(* the TYPES of the battery answer: secsleft IS the constant POWER_TIME_UNLIMITED ([RUnlimited]) exactly when plugged,
+   a plain int ([RSecs]) exactly when computed from now and a non-zero power, else the constant POWER_TIME_UNKNOWN;
+   percent is a float ([RFloat]) when computed from now/full, the kernel's int ([RInt]) when it is "capacity" *)
+Theorem C19_battery_types : forall b ac0 ac r, kbat_ok b = true -> tte_unused b = true ->
+  battery_of (bat_files b) (to_fres k_online ac0) (to_fres k_online ac) = Val (Some r) ->
+  (bt_secsleft r = RUnlimited <-> bt_plugged r = Some true) /\
+  (forall z, bt_secsleft r = RSecs z <->
+     bt_plugged r <> Some true /\ exists n w, spec_salt (kb_now b) = Some n /\ spec_salt (kb_power b) = Some w /\
+                                            w <> 0 /\ z = Z.quot (n * 3600) (Z.abs w)) /\
+  (forall q, bt_percent r = RFloat q -> exists f n, spec_salt (kb_full b) = Some f /\ spec_salt (kb_now b) = Some n) /\
+  (forall z, bt_percent r = RInt z -> exists ds, kb_capacity b = Present ds /\ z = dec_val ds).
+Proof. exact battery_types. Qed.
+Print Assumptions C19_battery_types.
 
 (* ... any directory listing: only battery-named entries count, no battery -> None, otherwise the reported
    battery is an entry of the directory ... *)
@@ -223,6 +237,11 @@ Theorem C19_cpu_count_cores_cpuinfo : forall blocks, cpuinfo_ok blocks = true ->
   Val (if spec_cores blocks =? 0 then None else Some (spec_cores blocks)).
 Proof. exact cpu_count_cores_cpuinfo. Qed.
 Print Assumptions C19_cpu_count_cores_cpuinfo.
+
+(* cpu_count() is a positive int or None, never 0 *)
+Theorem C19_cpu_count_positive : forall r n, cpu_count_front r = Some n -> 1 <= n.
+Proof. exact cpu_count_front_pos. Qed.
+Print Assumptions C19_cpu_count_positive.
 
 (* T7: cpu_stats() over every printed /proc/stat holding one ctxt, one intr and one softirq line, in any order and
    among any number of cpu / btime / other lines: exactly those three counters (syscalls = 0) *)
